@@ -67,16 +67,26 @@ func (c *Claim) String() string {
 		c.BlobRef, c.Signer, c.Permanode, c.Date, c.Type, c.Attr, c.Value)
 }
 
+// claimBefore orders claims by date and, for equal dates, by blobref (the
+// order of the index rows), so that the order of a permanode's claims does
+// not depend on the order in which they were received.
+func claimBefore(a, b *Claim) bool {
+	if a.Date.Equal(b.Date) {
+		return a.BlobRef.Less(b.BlobRef)
+	}
+	return a.Date.Before(b.Date)
+}
+
 type ClaimPtrsByDate []*Claim
 
 func (cl ClaimPtrsByDate) Len() int           { return len(cl) }
-func (cl ClaimPtrsByDate) Less(i, j int) bool { return cl[i].Date.Before(cl[j].Date) }
+func (cl ClaimPtrsByDate) Less(i, j int) bool { return claimBefore(cl[i], cl[j]) }
 func (cl ClaimPtrsByDate) Swap(i, j int)      { cl[i], cl[j] = cl[j], cl[i] }
 
 type ClaimsByDate []Claim
 
 func (cl ClaimsByDate) Len() int           { return len(cl) }
-func (cl ClaimsByDate) Less(i, j int) bool { return cl[i].Date.Before(cl[j].Date) }
+func (cl ClaimsByDate) Less(i, j int) bool { return claimBefore(&cl[i], &cl[j]) }
 func (cl ClaimsByDate) Swap(i, j int)      { cl[i], cl[j] = cl[j], cl[i] }
 
 func (cl ClaimsByDate) String() string {
